@@ -101,6 +101,47 @@ def _extract(fn: ast.FunctionDef, close_span, put_defaults, off_defaults):
     return closes[0][2], opens[0][2], opens[0][3]
 
 
+def _extract_removal(fn: ast.FunctionDef, put_defaults):
+    """the deleting puts of _unparenthesize_grouping: `self._put_src(None, <span>, tail[, head[, exclude]])`; spans from the node's end to the end of the closing
+    parentheses (all of them, or all but the last) and from the start of the opening ones (all, or all but the first) to the node's start"""
+    CLOSE = {('end_ln', 'end_col', 'pend_ln', 'pend_col'), ('end_ln', 'end_col', 'pend_ln', 'pend_col - 1')}
+    OPEN = {('pln', 'pcol', 'ln', 'col'), ('pln', 'pcol + 1', 'ln', 'col')}
+    closes, opens = [], []
+    for c in [n for n in ast.walk(fn) if isinstance(n, ast.Call) and isinstance(n.func, ast.Attribute) and n.func.attr == '_put_src']:
+        a = c.args
+        if not (isinstance(c.func.value, ast.Name) and c.func.value.id == 'self') or c.keywords or not 6 <= len(a) <= 8 or any(isinstance(x, ast.Starred) for x in a):
+            raise TranslationError(f'{fn.name} line {c.lineno}: unrecognised _put_src call {ast.unparse(c)[:120]}')
+        if not (isinstance(a[0], ast.Constant) and a[0].value is None):
+            raise TranslationError(f'{fn.name} line {c.lineno}: not a deletion: {ast.unparse(c)[:120]}')
+        span = tuple(ast.unparse(x) for x in a[1:5])
+        tail = _const(a[5], 'tail')
+        head = put_defaults['head']
+        if len(a) > 6:
+            if isinstance(a[6], ast.Name) and a[6].id == 'self':
+                head = True   # an FST object in the `head` position: _offset only tests `head and ...`, `head is None`, `head is not False` - an object (no __bool__ / __len__ on FST) reads as True
+            else:
+                head = _const(a[6], 'head')
+        excl = False
+        if len(a) > 7:
+            if not (isinstance(a[7], ast.Name) and a[7].id == 'self'):
+                raise TranslationError(f'{fn.name} line {c.lineno}: exclude is not `self`')
+            excl = True
+        flags = dict(tail=tail, head=head, excl=excl, oe=put_defaults['offset_excluded'])
+        if span in CLOSE:
+            closes.append(flags)
+        elif span in OPEN:
+            opens.append(flags)
+        elif span in {('end_ln', 'end_col', 'pend_ln', 'pend_col'), ('pln', 'pcol', 'ln', 'col')}:
+            pass
+        else:
+            raise TranslationError(f'{fn.name} line {c.lineno}: unrecognised span {span}')
+    key = lambda f: tuple(sorted(f.items()))
+    # the `shared` (solo generator argument) branch uses the same two spans: every call on one span must carry the same flags
+    if not closes or not opens or len({key(f) for f in closes}) != 1 or len({key(f) for f in opens}) != 1:
+        raise TranslationError(f'{fn.name}: closing / opening removals missing or with differing flags: {closes} / {opens}')
+    return closes[0], opens[0]
+
+
 def generate() -> list[str]:
     core_src = open(os.path.join(SRC, 'fst_core.py')).read()
     core = ast.parse(core_src)
@@ -114,6 +155,10 @@ def generate() -> list[str]:
     fg = find_function(misc, '_parenthesize_grouping')
     d_close, d_open, d_inner = _extract(fd, ('end_ln', 'end_from_col', 'end_ln', 'end_to_col'), put_defaults, off_defaults)
     g_close, g_open, g_inner = _extract(fg, ('end_ln', 'end_col', 'end_ln', 'end_col'), put_defaults, off_defaults)
+    fu = find_function(misc, '_unparenthesize_grouping')
+    if any(isinstance(n, (ast.FunctionDef, ast.ClassDef)) and n.name in ('__bool__', '__len__') for n in ast.walk(ast.parse(open(os.path.join(SRC, 'fst.py')).read()))):
+        raise TranslationError('FST defines __bool__ / __len__: an FST object passed as `head` is no longer simply true')
+    u_close, u_open = _extract_removal(fu, put_defaults)
     b = lambda v: 'true' if v else 'false'
     pc = lambda f: f'{{| pc_tail := {TRI[f["tail"]]}; pc_head := {TRI[f["head"]]}; pc_excl_self := {b(f["excl"])}; pc_offset_excluded := {b(f["oe"])} |}}'
     ic = lambda f: f'{{| ic_tail := {TRI[f["tail"]]}; ic_head := {TRI[f["head"]]}; ic_self := {b(f["self_"])} |}}'
@@ -131,6 +176,10 @@ def generate() -> list[str]:
             '(* _parenthesize_grouping: grouping parentheses, which stay outside the node *)\n'
             f'Definition group_close : putcall := {pc(g_close)}.\n'
             f'Definition group_open : putcall := {pc(g_open)}.\n'
-            f'Definition group_inner : innercall := {ic(g_inner)}.\n')
+            f'Definition group_inner : innercall := {ic(g_inner)}.\n\n'
+            '(* _unparenthesize_grouping: the closing parentheses are deleted first (offset point = their end), then the opening ones (offset point = the start of the node) *)\n'
+            f'Definition ungroup_close : putcall := {pc(u_close)}.\n'
+            f'Definition ungroup_open : putcall := {pc(u_open)}.\n')
     write_if_changed(os.path.join(COQ, 'gen', 'DelimitCalls.v'), text)
-    return [f'{SRC}/fst_misc.py:_delimit_node:{region_hash(misc_src, fd)}', f'{SRC}/fst_misc.py:_parenthesize_grouping:{region_hash(misc_src, fg)}']
+    return [f'{SRC}/fst_misc.py:_delimit_node:{region_hash(misc_src, fd)}', f'{SRC}/fst_misc.py:_parenthesize_grouping:{region_hash(misc_src, fg)}',
+            f'{SRC}/fst_misc.py:_unparenthesize_grouping:{region_hash(misc_src, fu)}']
